@@ -168,6 +168,10 @@ def execute(cfg, threads_prog, strat_spec, sched_seed, pre_steps, ctx_spec=None,
                     cm.__exit__(None, None, None)
                 except Exception as e:  # noqa
                     out["exit_errors"].append(f"{type(e).__name__}: {e}")
+                except simlock.WouldBlock as e:
+                    # the main thread cannot leave the context: a finished thread still owns a lock
+                    if not out["held_after"]:
+                        out["held_after"] = [repr(e.lock)]
             out["final"] = [w.observe(r) for r in w.res]
             out["final"] = [None if f is ABSENT else f for f in out["final"]]
             out["bufsize"] = {c.__name__: c.get_current_buffer_size() for c in {o.cls for o in w.objs} if hasattr(c, "get_current_buffer_size")}
